@@ -41,7 +41,7 @@ Open Scope list_scope.
    (otherwise rename_conflicting_symbols acts and the symbol_order chain is false for the
    constants: finding F8c, Properties/C12.v); (ii) the private renaming enters as `reindex`
    (faithful under no_rename_clash; F9).
-   Finding F17 (audit A4) is REPAIRED in /repo (<COMMIT-F17>): a declared output predicate that does not
+   Finding F17 (audit A4) is REPAIRED in /repo (70e6ace): a declared output predicate that does not
    occur in a program now receives the empty completed definition `forall X (p(X) <-> #false)` on
    that side (Model/External.v: missing_output_definitions), which says exactly what external
    stability over the public vocabulary says about it (C02_missing_output_empty,
@@ -422,7 +422,7 @@ Print Assumptions C02_missing_outputs_are_the_program's.
    The task is outside the former class (~ outputs_occur t17); M17 = {in, out, out2} is an external
    stable model of the specification program and NO interpretation with its public part is one of
    the program (the program never produces out2) - a forward behavioural difference.  Before
-   /repo <COMMIT-F17> the single emitted problem was irrefutable (the theorem then called
+   /repo 70e6ace the single emitted problem was irrefutable (the theorem then called
    C02_missing_output_refuted showed `forall FI' M', ~ refutes_some FI' M' pbs17`): anthem reported
    the false forward claim as proved.  Now the program side carries `out2 <-> #false`, a second
    problem has it as conjecture, M17 refutes it, and - no class premise left - the behavioural
